@@ -26,7 +26,7 @@ for pid in sorted(os.listdir(base)):
         patch = os.path.join(d, 'patch.diff')
         if not os.path.exists(patch):
             continue
-        sid = f"{pid}-{tag}{k}" if kind == 'mut' else f"REF-{pid}-{k}"
+        sid = f"{pid}-{tag}{k}" if kind == 'mut' else f"REF-{pid}-{tag}{k}"
         dst = os.path.join('/verif/seeded', sid)
         if os.path.exists(dst):
             continue
@@ -66,7 +66,7 @@ for pid in sorted(os.listdir(base)):
         meta.update({'id': sid, 'property': pid, 'base_commit': head, 'confirmed': dict(conf, how='git apply in the scratch worktree; '
                      'PYTHONPATH=<wt>/src /venv/bin/python -m pytest -q -p no:cacheprovider; ' + prog + ' before and after')})
         if kind == 'mut':
-            meta['origin'] = 'fresh sub-agent given only the property text and a scratch worktree (round 2, asked for non-obvious kinds of change)'
+            meta['origin'] = f'fresh sub-agent given only the property text, a scratch worktree and the summaries of earlier rounds (round {tag}, asked for new kinds of change)'
         else:
             meta['origin'] = 'fresh sub-agent given only the property text: behaviour-preserving refactoring of the code behind the property'
             meta['expected'] = 'exit0'
